@@ -143,7 +143,7 @@ func init() {
 
 	drivers["command"] = func(seed int64, n int, emit func(any)) error {
 		rng := rand.New(rand.NewSource(seed))
-		lower := []rune("abz09-_.éßλж日 \t")
+		lower := []rune("abz09-_.éßλж日 \tsſµμςσ")
 		// upper-case by the Unicode standard: general category Lu or the Other_Uppercase property (roman numerals,
 		// circled capitals); title-case letters (Lt) are neither and are left out (the property does not decide them)
 		upper := []rune("ABZÉΛЖⅠⅫⒶⓏ")
@@ -223,7 +223,10 @@ func init() {
 			case 1: // Covers on related valid commands
 				a := validCmd(3)
 				b := a
-				switch rng.Intn(5) {
+				switch rng.Intn(6) {
+				case 5:
+					// the same command with one letter replaced by its (different, lower-case) case-folding partner
+					b = strings.Join(foldFlip(chars(a)), "")
 				case 0:
 					b = validCmd(3)
 				case 1:
